@@ -13,5 +13,5 @@ repo = Repo(REPO_ROOT, overrides=ov) if ov else Repo(REPO_ROOT)
 ck = run_check(prop, "quick", repo=repo, write=False, quiet=True)
 for e in ck.errors: print("ERR", e[:600])
 for o in ck.obligations:
-    if (sub and sub in (o.construct or "") + o.text) or (not sub and not o.ok):
-        print("OK " if o.ok else "BAD", o.rule, o.where if hasattr(o, "where") else "", "|", o.text[:160], "|", (o.construct or "")[:80], "|", str(getattr(o, "detail", ""))[:400])
+    if (sub and sub in (o.construct or "") + o.instance) or (not sub and not o.ok):
+        print("OK " if o.ok else "BAD", o.rule, o.where if hasattr(o, "where") else "", "|", o.instance[:160], "|", (o.construct or "")[:80], "|", str(getattr(o, "detail", ""))[:400])
